@@ -15,7 +15,7 @@ LEAN_TARGETS = ["PicoSVG.Props.C17"]
 RULE = ("documents from an adversarial grammar: self- and mutually-referencing use (cycles of length 1-4, also through groups "
         "and clipPaths), clipPath and gradient href cycles, dangling hrefs, malformed attribute values, exponentially "
         "expanding use chains, DOCTYPE with internal and external entities; each conversion runs in a watchdogged subprocess "
-        "(10 s wall clock, 2 GiB address space); the Lean pipeline model (total, fuelled loops) predicts ok / exception class / "
+        "(10 s wall clock per conversion, copying and in-place, 2 GiB address space); the Lean pipeline model (total, fuelled loops) predicts ok / exception class / "
         "fuel exhaustion and a timeout must coincide with fuel exhaustion; non-trivial = distinct document containing a "
         "reference cycle or an entity declaration")
 ASSUMPTIONS = [
@@ -56,7 +56,7 @@ stage("inplace", inplace)
 
 
 def gen_doc(rng, canary_path):
-    k = rng.choice(["use-self", "use-mutual", "use-chain", "use-in-clip-cycle", "clip-cycle", "grad-cycle", "dangling", "malformed",
+    k = rng.choice(["use-self", "use-mutual", "use-use", "use-chain", "use-in-clip-cycle", "clip-cycle", "grad-cycle", "dangling", "malformed",
                     "expanding", "entities", "benign"])
     body = ""
     defs = ""
@@ -70,6 +70,15 @@ def gen_doc(rng, canary_path):
         ids = ["n%d" % i for i in range(n)]
         for i, x in enumerate(ids):
             body += '<g id="%s"><circle r="%d"/><use xlink:href="#%s"/></g>' % (x, i + 2, ids[(i + 1) % n])
+    elif k == "use-use":
+        # use elements that are themselves the targets
+        n = rng.randint(1, 4)
+        ids = ["w%d" % i for i in range(n)]
+        body = "".join('<use id="%s" xlink:href="#%s"%s/>' % (x, ids[(i + 1) % n], rng.choice(["", ' x="2"', ' transform="scale(2)"'])) for i, x in enumerate(ids))
+        if rng.random() < 0.5:
+            body = '<rect width="4" height="4"/>' + body
+        if rng.random() < 0.3:
+            body = "<g>%s</g>" % body
     elif k == "use-chain":
         # acyclic chain: must terminate
         n = rng.randint(2, 6)
@@ -100,7 +109,7 @@ def gen_doc(rng, canary_path):
                            '<svg viewBox="0 0 10"><rect width="2" height="2"/></svg>', '<rect width="5" height="5" stroke="red" stroke-dasharray="a,b"/>',
                            '<path d="M0,0 L5,5 L9,0 z" stroke="red" stroke-width="1e400"/>', '<polygon points="1,2 3"/>'])
     elif k == "expanding":
-        n = rng.randint(3, 7)
+        n = rng.randint(3, 6)
         body = '<rect id="e0" width="2" height="2"/>'
         for i in range(1, n):
             body += '<g id="e%d">%s</g>' % (i, ''.join('<use xlink:href="#e%d" x="%d"/>' % (i - 1, j) for j in range(3)))
@@ -131,7 +140,7 @@ def run_watchdog(doc, limit=10.0):
         t0 = time.time()
         timed_out = False
         try:
-            r = subprocess.run([common.PY, w, os.path.join(common.REPO, "src"), p], capture_output=True, text=True, timeout=limit)
+            r = subprocess.run([common.PY, w, os.path.join(common.REPO, "src"), p], capture_output=True, text=True, timeout=2 * limit)
             stdout, stderr, rc = r.stdout, r.stderr, r.returncode
         except subprocess.TimeoutExpired as e:
             timed_out = True
@@ -222,7 +231,7 @@ def search(ctx, disagreements):
     for (k, doc), res in results:
         o = res["outcome"]
         if o in ("TIMEOUT", "MemoryError", "CRASH"):
-            tag = "use-cycle-hang" if ("<use" in doc and k.startswith("use")) else None
+            tag = None
             found.append({"kind": "termination", "input": doc, "tag": tag, "key": "hang:" + k,
                           "detail": "%s document: %s conversion did not finish (%s after %.1fs)" % (
                               k, "in-place" if res.get("stage") == "inplace" else "copying", o, res.get("secs", 0))})
